@@ -44,6 +44,33 @@ theorem memPy_leaf {vs : List Obj} {x : Obj} (hvs : vs.all Obj.isLeafB = true) (
   obtain ⟨y, hy, e⟩ := memPy_iff.mp h
   exact pyEq_leaf (List.all_eq_true.mp hvs y hy) e
 
+/-- a value of a `Literal[...]` over leaf values and enum members: a leaf, or one of the literal's members -/
+theorem memPy_litVal {vs : List Obj} {x : Obj} (hvs : vs.all Obj.isLitVal = true) (h : Obj.memPy x vs = true) :
+    x.isLeafB = true ∨ (∃ e m, x = .enumM e m ∧ litHasEnum vs = true) := by
+  obtain ⟨y, hy, e⟩ := memPy_iff.mp h
+  have hy' := List.all_eq_true.mp hvs y hy
+  cases y with
+  | enumM e' m' =>
+    right
+    have : x = .enumM e' m' := by
+      unfold Obj.pyEq at e
+      have h0 : Obj.num2? (.enumM e' m') = Option.none := rfl
+      rw [h0] at e
+      cases hx : Obj.num2? x with
+      | some b => rw [hx] at e; cases e
+      | none => rw [hx] at e; simp only [beq_iff_eq] at e; exact e.symm
+    exact ⟨e', m', this, by simp only [litHasEnum, List.any_eq_true]; exact ⟨_, hy, rfl⟩⟩
+  | _ => left; exact pyEq_leaf (by simpa [Obj.isLitVal] using hy') e
+
+/-- on its values a literal is unstructured by run-time class (leaf values are themselves) -/
+theorem un_lit_unAny (w : World) (cfg : Cfg) {vs : List Obj} {x : Obj} (hvs : vs.all Obj.isLitVal = true)
+    (h : Obj.memPy x vs = true) : un w cfg (.lit vs) x = unAny w cfg x := by
+  rw [un]
+  rcases memPy_litVal hvs h with hl | ⟨e, m, rfl, he⟩
+  · have : unAny w cfg x = x := by cases x <;> simp_all [Obj.isLeafB, unAny]
+    rw [this]; split <;> rfl
+  · simp [he]
+
 theorem mkColl_prim {dq : Bool} {ck : CK} {ys : List Obj} (hck : (dq || ck != .deque) = true)
     (h : ∀ y ∈ ys, y.prim dq = true) : (mkColl ck ys).prim dq = true := by
   unfold mkColl
@@ -376,7 +403,8 @@ theorem wellTyped_any_aux (gen : Bool) (hws : w.SupU gen) :
         simp [wellTypedAny, hm]
       | lit vs =>
         rw [wellTyped] at hwt
-        exact leaf_wellTypedAny w (memPy_leaf (by simpa [Ty.supU] using hs) hwt)
+        simp only [Bool.and_eq_true] at hwt
+        exact hwt.2
       | coll k t' =>
         cases x with
         | coll ck xs =>
@@ -576,9 +604,13 @@ theorem prim_aux (hws : w.SupU cfg.gen) :
         rw [un]; exact enumValue_prim w cfg hws e mm
       | lit vs =>
         rw [wellTyped] at hwt
-        have hl := memPy_leaf (by simpa [Ty.supU] using hs) hwt
-        have : un w cfg (.lit vs) x = x := by cases x <;> simp [un]
-        rw [this]; exact leaf_prim hl
+        simp only [Bool.and_eq_true] at hwt
+        have hvs : vs.all Obj.isLitVal = true := by simpa [Ty.supU] using hs
+        rw [un_lit_unAny w cfg hvs hwt.1]
+        rcases memPy_litVal hvs hwt.1 with hl | ⟨e, m, rfl, _⟩
+        · have : unAny w cfg x = x := by cases x <;> simp_all [Obj.isLeafB, unAny]
+          rw [this]; exact leaf_prim hl
+        · rw [unAny]; exact enumValue_prim w cfg hws e m
       | coll k t' =>
         cases x with
         | coll ck xs =>
